@@ -8,7 +8,8 @@ CONSTANT Level
 Recs == ndJsonDeserialize(IOEnv.TRACE)
 ToSt(j) == [root |-> j.root, p |-> j.p, l |-> j.l, r |-> j.r, size |-> j.size]
 SameSt(j, s) == ~j.bad /\ ToSt(j) = Canon(s)
-Aux(j) == <<j.cur, j.osize, j.oroot>>
+\* cfg: configuration (node member, comparison function, private pointer) of the heap object holding the elements
+Aux(j) == <<j.cur, j.osize, j.oroot, j.cfg>>
 
 \* highest set bit of a 64-bit value given as four 16-bit limbs, MSB first; -1 for 0
 FlsLimb(v) == CHOOSE i \in 0..15 : 2 ^ i <= v /\ v < 2 ^ (i + 1)
@@ -24,7 +25,7 @@ StepOK(rec) ==
       [] rec.op = "pop"  -> LET r == Pop(pre) IN SameSt(rec.post, r.s) /\ rec.ret = r.ret /\ Aux(rec.pre) = Aux(rec.post)
       [] rec.op = "get"  -> rec.post = rec.pre /\ rec.ret = Get(pre) /\ rec.size = pre.size
       [] rec.op = "clear" -> LET c == ClearOp(pre) IN SameSt(rec.post, c.s) /\ rec.ev = c.ev /\ Aux(rec.pre) = Aux(rec.post)
-      [] rec.op = "swap" -> ToSt(rec.post) = pre /\ rec.post.cur = 1 - rec.pre.cur /\ rec.post.osize = 0 /\ rec.post.oroot = 0
+      [] rec.op = "swap" -> ToSt(rec.post) = pre /\ rec.post.cur = 1 - rec.pre.cur /\ rec.post.osize = 0 /\ rec.post.oroot = 0 /\ rec.post.cfg = rec.pre.cfg /\ rec.pre.cfg \in {1, 2}
       [] rec.op = "fls"  -> rec.post = rec.pre /\ rec.ret = FlsLimbs(rec.x)
       [] OTHER -> FALSE
 C07OK(rec) ==
